@@ -168,6 +168,9 @@ def _proc(st, out: OutputCollector, ctx: CallContext, producer: bool) -> None:
         if st.site.endswith("_emit"):
             out.emit_pydict({"v": [1000 + st.n]})
         _boom(st.cls, st.msg, st.argc, f"process{st.n}")
+    if st.site == "fin1" and st.n == 1:      # a producer that finishes at its very first step
+        out.finish()
+        return
     if st.site == "b1" and st.n == 1:
         out.emit_pydict({"v": list(range(BIG_ROWS))})
         return
@@ -262,7 +265,7 @@ SHAPE_METHOD = {"unary": "u", "prod": "p", "prodh": "ph", "exch": "x", "exchh": 
 
 
 def new_server() -> RpcServer:
-    return RpcServer(ErrSvc, ErrImpl())
+    return RpcServer(ErrSvc, ErrImpl(), enable_describe=True)
 
 
 # ------------------------------------------------------------------------------------------ transports
